@@ -133,3 +133,10 @@ Theorem C04_unbounded_push_adds_the_index :
   Permutation (run_fu (fst (fu_push P mrg u c w))) (cidx c :: run_fu u) \/ run_fu (fst (fu_push P mrg u c w)) = run_fu u.
 Proof. exact fu_push_run. Qed.
 Print Assumptions C04_unbounded_push_adds_the_index.
+
+(** from_iter / collect of FuturesOrderedBounded: the inputs get positions 0 .. n-1 in input order *)
+Theorem C04_from_iter_is_in_input_order :
+  forall (P : params), params_ok P -> forall (l : list child) (w : world),
+  Z.of_nat (length l) < msb P -> fob_oinv P (fst (fob_from_list P l w)).
+Proof. exact fob_from_list_order. Qed.
+Print Assumptions C04_from_iter_is_in_input_order.
